@@ -1464,6 +1464,33 @@ class Inliner:
                     st.value, ast.YieldFrom) and isinstance(
                         st.value.value, ast.Call):
                 call, kind = st.value.value, 'yieldfrom'
+            if call is None and isinstance(st, ast.If):
+                # "if [not] h(..):" with a multi-statement helper: its value
+                # goes into a temporary first (evaluated at the same point)
+                tcall = st.test.operand if isinstance(
+                    st.test, ast.UnaryOp) and isinstance(
+                        st.test.op, ast.Not) else st.test
+                if isinstance(tcall, ast.Call):
+                    h, skip = self.helper_for(tcall, cls, closures)
+                    if h is not None and h is not owner and \
+                            self.eligible(h) and not _has_yield(h) and \
+                            _expr_form(h.body) is None:
+                        self.counter += 1
+                        tmp = f'{h.name.lstrip("_")}__res{self.counter}'
+                        a = ast.Assign(targets=[ast.Name(id=tmp,
+                                                         ctx=ast.Store())],
+                                       value=tcall)
+                        nm_ = ast.Name(id=tmp, ctx=ast.Load())
+                        if tcall is st.test:
+                            st.test = nm_
+                        else:
+                            st.test.operand = nm_
+                        ast.copy_location(a, st)
+                        ast.copy_location(a.targets[0], st)
+                        ast.copy_location(nm_, st)
+                        body.insert(i, a)
+                        changed = True
+                        continue
             if call is None and isinstance(st, ast.AugAssign) and \
                     isinstance(st.value, ast.Call) and isinstance(
                         st.target, ast.Name):
